@@ -70,6 +70,64 @@ def h_standard(ctx: Any, code: str, n: int, depth: int, mode: str = 'T',
         C.set_monitor(None)
 
 
+def h_library_rake(ctx: Any, code: str, n: int, depth: int, percentage: float, cap: Any, stacks: Any,
+                   no_flop_no_drop: bool = False, deck: str = 'identity') -> None:
+    """the library's own rake helper (percentage, cap, no-flop-no-drop) inside real hands: chips concrete, the
+    first <depth> decisions symbolic (fold / call / min raise / max raise), conservation after every operation."""
+    import warnings
+    from functools import partial
+    from math import inf
+    from pokerkit.state import Mode
+    from pokerkit.utilities import rake
+    C.native_hands()
+    C.set_deck_order(deck)
+    warnings.simplefilter('ignore')
+    cfg: dict = dict(n=n, stacks=tuple(stacks), antes=1, mode=Mode.CASH_GAME,
+                     rake=partial(rake, percentage=percentage, cap=inf if cap is None else cap,
+                                  no_flop_no_drop=no_flop_no_drop))
+    if C.is_stud(code):
+        cfg.update(bring_in=1, small_bet=2, big_bet=4)
+    else:
+        cfg['blinds'] = (1, 2)
+        if C.uses_small_big(code):
+            cfg.update(small_bet=2, big_bet=4)
+        else:
+            cfg['min_bet'] = 2
+    C.set_monitor(C.conservation_monitor(ctx))
+    try:
+        st = C.call(ctx, C.make_state, code, cfg)
+        k = 0
+        guard = 0
+        while st.status and (st.actor_index is not None or st.stander_pat_or_discarder_index is not None):
+            guard += 1
+            ctx.check(guard < 200, 'no-termination')
+            if st.stander_pat_or_discarder_index is not None:
+                C.call(ctx, st.stand_pat_or_discard)
+            elif st.can_post_bring_in():
+                C.call(ctx, st.post_bring_in)
+            else:
+                c = ctx.choice(f'k{guard}', 4) if k < depth else 1
+                k += 1
+                if c == 0 and st.can_fold():
+                    C.call(ctx, st.fold)
+                elif c >= 2 and st.can_complete_bet_or_raise_to():
+                    x = (st.min_completion_betting_or_raising_to_amount if c == 2
+                         else st.max_completion_betting_or_raising_to_amount)
+                    C.call(ctx, st.complete_bet_or_raise_to, x)
+                else:
+                    C.call(ctx, st.check_or_call)
+        ctx.check(not st.status, 'not-terminal')
+        C.check_terminal(ctx, st)
+        raked = sum(p.raked_amount for p in st.pots)
+        if raked:
+            ctx.cover('raked')
+        if cap is not None and any(p.raked_amount == cap for p in st.pots):
+            ctx.cover('cap-binds')
+        ctx.cover('terminal')
+    finally:
+        C.set_monitor(None)
+
+
 def jobs(tier: str, seed: int) -> list[dict]:
     from engine.partition import weak_orders, tri, zero, product
     out = []
@@ -110,6 +168,13 @@ def jobs(tier: str, seed: int) -> list[dict]:
                     params=dict(code='NT', n=2, depth=1, mode='C', deck=deck, rake_d=10,
                                 ante_kind='none'),
                     budget_s=B, must_cover=mc))
+    for name, kw in (('NT/n2/10pct-cap3', dict(code='NT', n=2, depth=4, percentage=0.1, cap=3, stacks=(100, 100))),
+                     ('NT/n3/5pct-cap2', dict(code='NT', n=3, depth=3, percentage=0.05, cap=2, stacks=(100, 40, 100))),
+                     ('PO/n2/10pct-nocap-noflopnodrop', dict(code='PO', n=2, depth=3, percentage=0.1, cap=None,
+                                                             stacks=(100, 100), no_flop_no_drop=True)),
+                     ('F7S/n2/10pct-cap1', dict(code='F7S', n=2, depth=3, percentage=0.1, cap=1, stacks=(40, 40)))):
+        out.append(dict(name=f'd/library-rake/{name}', fn='h_library_rake', traced=False, params=dict(kw, deck=deck),
+                        budget_s=B, must_cover=['terminal', 'raked'] + (['cap-binds'] if kw['cap'] else [])))
     for trim in ((False,) if tier == 'quick' else (True, False)):
         for k, part in enumerate(product(tri('ante0', 'ante1'), tri('s0', 's1'))):
             out.append(dict(name=f'b/NT/n2/d0/perplayer-antes/trim{int(trim)}/p{k}', fn='h_standard',
